@@ -90,12 +90,63 @@ theorem find_rename_absent (fs : FS) (a b p : Bytes) (h : fsFind fs p = none) (h
 /-- the name pop3_quit gives a message found in new/ -/
 def seenName (fn : Bytes) : Bytes := curSl ++ fn.drop 4 ++ seenSuffix
 
+/-- the new name starts with "cur/" -/
+theorem seenName_take (fn : Bytes) : (seenName fn).take 4 = curSl := by
+  simp [seenName, curSl]
+
+theorem seenName_ne_new (fn p : Bytes) (hp : p.take 4 = newSl) : seenName fn ≠ p := by
+  intro h
+  have := seenName_take fn
+  rw [h, hp] at this
+  exact absurd this (by decide)
+
+/-- two messages of new/ with the same new name are the same message -/
+theorem seenName_inj (a b : Bytes) (ha : a.take 4 = newSl) (hb : b.take 4 = newSl)
+    (h : seenName a = seenName b) : a = b := by
+  unfold seenName at h
+  have h1 : a.drop 4 = b.drop 4 := by
+    have := List.append_cancel_right h
+    exact List.append_cancel_left this
+  rw [← List.take_append_drop 4 a, ← List.take_append_drop 4 b, ha, hb, h1]
+
+/-- rename(2) of an existing file onto another name: afterwards the target name holds exactly the
+old file (same data and times) and the old name is gone -/
+theorem find_rename_target (fs : FS) (a b : Bytes) (f : File) (hf : fsFind fs a = some f) (hab : a ≠ b) :
+    fsFind (fsRename fs a b) b = some { f with path := b } ∧ fsFind (fsRename fs a b) a = none := by
+  have key : ∀ l : FS, fsFind l b = none →
+      fsFind (l.map (fun g => if g.path == a then { f with path := b } else g)) b =
+        (fsFind l a).map (fun _ => { f with path := b }) ∧
+      fsFind (l.map (fun g => if g.path == a then { f with path := b } else g)) a = none := by
+    intro l
+    induction l with
+    | nil => intro _; exact ⟨rfl, rfl⟩
+    | cons g l ih =>
+      intro hb
+      rw [find_cons] at hb
+      by_cases hgb : g.path = b
+      · simp [hgb] at hb
+      · rw [if_neg hgb] at hb
+        obtain ⟨ih1, ih2⟩ := ih hb
+        rw [List.map_cons, find_cons, find_cons, find_cons, ih1, ih2]
+        by_cases hga : g.path = a
+        · have hba : b ≠ a := fun e => hab e.symm
+          simp [hga, hba]
+        · simp [hga, hgb]
+  unfold fsRename
+  rw [hf]
+  show fsFind (if (a == b) = true then fs else _) b = _ ∧ fsFind (if (a == b) = true then fs else _) a = none
+  rw [if_neg (by simpa using hab)]
+  obtain ⟨k1, k2⟩ := key (fsUnlink fs b) (find_unlink_self fs b)
+  refine ⟨?_, k2⟩
+  rw [k1, find_unlink_other fs a b hab, hf]
+  rfl
+
 /-- a file that is neither a marked message, nor an unmarked message in new/, nor the new name of
-one, is still there after pop3_quit, unchanged -/
+an unmarked message of new/, is still there after pop3_quit, unchanged -/
 theorem quit_keeps (msgs : List Msg) : ∀ (fs : FS) (out p : Bytes) (f : File),
     fsFind fs p = some f →
     (∀ m ∈ msgs, m.fn = p → m.del = false ∧ (m.fn.take 4 == newSl) = false) →
-    (∀ m ∈ msgs, seenName m.fn ≠ p) →
+    (∀ m ∈ msgs, m.del = false → (m.fn.take 4 == newSl) = true → seenName m.fn ≠ p) →
     fsFind (quitLoop msgs fs out).1 p = some f := by
   induction msgs with
   | nil => intro fs out p f h _ _; simpa [quitLoop] using h
@@ -103,7 +154,8 @@ theorem quit_keeps (msgs : List Msg) : ∀ (fs : FS) (out p : Bytes) (f : File),
     intro fs out p f h h1 h2
     have h1' : ∀ m ∈ rest, m.fn = p → m.del = false ∧ (m.fn.take 4 == newSl) = false :=
       fun x hx => h1 x (by simp [hx])
-    have h2' : ∀ m ∈ rest, seenName m.fn ≠ p := fun x hx => h2 x (by simp [hx])
+    have h2' : ∀ m ∈ rest, m.del = false → (m.fn.take 4 == newSl) = true → seenName m.fn ≠ p :=
+      fun x hx => h2 x (by simp [hx])
     unfold quitLoop
     by_cases hd : m.del = true
     · have hne : p ≠ m.fn := fun hh => by
@@ -118,7 +170,7 @@ theorem quit_keeps (msgs : List Msg) : ∀ (fs : FS) (out p : Bytes) (f : File),
       · have hne : p ≠ m.fn := fun hh => by
           have := (h1 m (by simp) hh.symm).2
           simp [hn] at this
-        have hnt : p ≠ seenName m.fn := fun hh => h2 m (by simp) hh.symm
+        have hnt : p ≠ seenName m.fn := fun hh => h2 m (by simp) (by simpa using hd) hn hh.symm
         simp only [hn, if_true]
         exact ih _ _ p f (by rw [show curSl ++ m.fn.drop 4 ++ seenSuffix = seenName m.fn from rfl,
                                   find_rename_other fs m.fn _ p hne hnt]; exact h) h1' h2'
@@ -168,6 +220,53 @@ theorem quit_removes (msgs : List Msg) : ∀ (fs : FS) (out : Bytes) (m : Msg),
       split
       · split <;> exact ih _ _ m hx hd h2'
       · split <;> exact ih _ _ m hx hd h2'
+
+/-- **an unmarked message found in new/ is, after pop3_quit, in cur/ under its name plus ":2,"** —
+the same file (data, times), and its old name is gone. Message names unique; the new name is not
+that of a marked message. -/
+theorem quit_renames (msgs : List Msg) : ∀ (fs : FS) (out : Bytes) (m : Msg) (f : File),
+    m ∈ msgs → m.del = false → m.fn.take 4 = newSl → fsFind fs m.fn = some f →
+    (msgs.map (·.fn)).Nodup → (∀ x ∈ msgs, x.fn = seenName m.fn → x.del = false) →
+    fsFind (quitLoop msgs fs out).1 (seenName m.fn) = some { f with path := seenName m.fn } ∧
+    fsFind (quitLoop msgs fs out).1 m.fn = none := by
+  induction msgs with
+  | nil => intro fs out m f hm; simp at hm
+  | cons x rest ih =>
+    intro fs out m f hm hd hn hf hu h2
+    simp only [List.map_cons, List.nodup_cons] at hu
+    have h2' : ∀ y ∈ rest, y.fn = seenName m.fn → y.del = false := fun y hy => h2 y (by simp [hy])
+    rcases List.mem_cons.mp hm with hx | hx
+    · subst hx
+      have hnb : (m.fn.take 4 == newSl) = true := by simpa using hn
+      have hab : m.fn ≠ seenName m.fn := fun e => seenName_ne_new m.fn m.fn hn e.symm
+      obtain ⟨t1, t2⟩ := find_rename_target fs m.fn (seenName m.fn) f hf hab
+      unfold quitLoop
+      simp only [hd, hnb, if_true, Bool.false_eq_true, if_false]
+      refine ⟨?_, ?_⟩
+      · apply quit_keeps rest _ _ _ _ t1
+        · intro y hy e
+          refine ⟨h2' y hy e, ?_⟩
+          rw [e, seenName_take]; decide
+        · intro y hy yd yn e
+          have : y.fn = m.fn := seenName_inj y.fn m.fn (by simpa using yn) hn e
+          exact hu.1 (this ▸ List.mem_map_of_mem hy)
+      · exact quit_absent rest _ _ m.fn t2 (fun y _ => seenName_ne_new y.fn m.fn hn)
+    · have hne : m.fn ≠ x.fn := fun e => hu.1 (e ▸ List.mem_map_of_mem hx)
+      have step : ∀ fs' out', fsFind fs' m.fn = some f →
+          fsFind (quitLoop rest fs' out').1 (seenName m.fn) = some { f with path := seenName m.fn } ∧
+          fsFind (quitLoop rest fs' out').1 m.fn = none :=
+        fun fs' out' hf' => ih fs' out' m f hx hd hn hf' hu.2 h2'
+      unfold quitLoop
+      split
+      · split
+        · exact step _ _ (by rw [find_unlink_other fs m.fn x.fn hne]; exact hf)
+        · exact step _ _ hf
+      · split
+        · apply step
+          rw [show curSl ++ x.fn.drop 4 ++ seenSuffix = seenName x.fn from rfl,
+            find_rename_other fs x.fn _ m.fn hne (fun e => seenName_ne_new x.fn m.fn hn e.symm)]
+          exact hf
+        · exact step _ _ hf
 
 /-! ### the message table -/
 
